@@ -1823,7 +1823,11 @@ func (m *Machine) ParseStates(states S) S {
 	}
 
 	if dups {
-		return slicesUniq(states)
+		// unique, but only the known ones
+		return slicesFilter(slicesUniq(states), func(name string, _ int) bool {
+			_, ok := seen[name]
+			return ok
+		})
 	}
 	return slices.Collect(maps.Keys(seen))
 }
